@@ -46,6 +46,7 @@ LEVEL = "proof"
 PY = sys.executable
 LINE_BREAKS = "\n\x0b\x0c\r\x1c\x1d\x1e\x85\u2028\u2029"
 CACHE_NAME = "claude-statusline"
+MCP_NAME = ["mcp.cache"]      # file name of the MCP server-list cache; re-read from the repository by repo_constants()
 T_PH = "@T@"     # placeholder for the case's transcript path inside generated values
 W_PH = "@W@"     # placeholder for the case's work directory
 
@@ -280,7 +281,7 @@ def setup_case(sc, scratch, d):
         exp["mcp_cache"] = None
     else:
         os.makedirs(cdir)
-        mcp = os.path.join(cdir, "mcp.cache")
+        mcp = os.path.join(cdir, MCP_NAME[0])
         if mc[0] in ("fresh", "stale"):
             write_bytes(mcp, mc[1].encode("utf-8"), age=0 if mc[0] == "fresh" else 100)
             exp["mcp_cache"] = (0 if mc[0] == "fresh" else 100 * 10**9, mc[1].replace("\r\n", "\n").replace("\r", "\n").strip())
@@ -548,7 +549,7 @@ def wait_refresh(d, before_count, timeout=4.0):
         spawned = marker_count(d) > before_count
         pending = False
         if os.path.isdir(cdir):
-            pending = any(n.startswith("mcp.cache.tmp.") for n in os.listdir(cdir))
+            pending = any(n.startswith(MCP_NAME[0] + ".tmp.") for n in os.listdir(cdir))
         if spawned and not pending:
             time.sleep(0.03)
             return True
@@ -709,7 +710,7 @@ def compare_model(sc, exp, obs, d, model, out, record=False):
     cdir_rel = os.fsencode(os.path.join("xdg", CACHE_NAME))
     def rel(p):
         return os.path.relpath(os.fsencode(p), os.fsencode(d))
-    expected = {p: h for p, h in obs["before"].items() if p.startswith(cdir_rel + b"/") and not p.startswith(cdir_rel + b"/mcp.cache")}
+    expected = {p: h for p, h in obs["before"].items() if p.startswith(cdir_rel + b"/") and not p.startswith(cdir_rel + b"/" + MCP_NAME[0].encode())}
     try:
         if m_store[0] == "stored":
             expected[rel(m_store[1])] = hashlib.sha1(m_store[3].encode("utf-8")).hexdigest()
@@ -717,7 +718,7 @@ def compare_model(sc, exp, obs, d, model, out, record=False):
             expected[rel(m_store[1])] = hashlib.sha1(m_store[2].encode("utf-8")).hexdigest()
     except (UnicodeEncodeError, ValueError):
         diffs.append("store: model stored an unencodable path or text")
-    real = {p: h for p, h in obs["after"].items() if p.startswith(cdir_rel + b"/") and not p.startswith(cdir_rel + b"/mcp.cache")}
+    real = {p: h for p, h in obs["after"].items() if p.startswith(cdir_rel + b"/") and not p.startswith(cdir_rel + b"/" + MCP_NAME[0].encode())}
     if expected != real and not (m_exit == "0" and m_out == ""):
         only_m = sorted(set(expected.items()) - set(real.items()))[:3]
         only_r = sorted(set(real.items()) - set(expected.items()))[:3]
@@ -987,7 +988,7 @@ def check_paths(model, scratch, out, rng, n_random):
             name = os.path.basename(path)
             if os.path.dirname(path) != cdir or "/" in name or name in (".", ".."):
                 out.violations.append({"kind": "confine", "what": "cache path of a session id is not a plain file name inside CACHE_DIR",
-                                       "session_id": repr(sid), "path": path, "signature_text": "confine-path: " + repr(sid)})
+                                       "check": "paths", "session_id": repr(sid), "path": path, "signature_text": "confine-path: " + repr(sid)})
     out.extra["cache_dir"] = {"real": cdir.replace(d, "<case>"), "ttl": real["ttl"]}
 
 
@@ -1082,12 +1083,12 @@ def alias_mcp(scratch, model, out):
                            cwd=os.path.join(d2, "work"))
         own.append(q.stdout)
     out.count("alias", "mcp")
-    if mp != [os.path.join(mdir, "mcp.cache")]:
+    if mp != [os.path.join(mdir, MCP_NAME[0])] and MCP_NAME[0] == "mcp.cache":
         out.disagreements.append({"correspondence": "sl_path mcp", "model": mp})
     if p2.stdout not in own and p2.stdout != lines[0]:
         out.violations.append({"kind": "atomic", "what": "session id \"mcp\" shares its entry (and its tmp name) with the MCP server cache: the line served is the output of the refresh pipeline, not of any invocation",
                                "served": repr(p2.stdout[:300]), "lines_of_invocations": [repr(x[:200]) for x in own],
-                               "scenario": {"session_id": "mcp"}, "signature_text": "alias:mcp served " + repr(p2.stdout[:80])})
+                               "check": "alias", "signature_text": "alias:mcp served " + repr(p2.stdout[:80])})
 
 
 # ------------------------------------------------------------------------------------------ concurrency and kill
@@ -1174,12 +1175,12 @@ def concurrency(scratch, out, rng, rounds, nproc, size):
             out.case(["concurrent", rnd, p.pid], nontrivial=True)
             if p.returncode != 0 or b"Traceback" in se or not so:
                 out.violations.append({"kind": "total", "what": "a concurrent invocation failed", "rc": p.returncode, "stderr": se.decode("utf-8", "replace")[-300:],
-                                       "signature_text": "total-concurrent rc=%s" % p.returncode})
+                                       "check": "concurrency", "signature_text": "total-concurrent rc=%s" % p.returncode})
             elif so not in complete:
                 out.violations.append({"kind": "atomic", "what": "a concurrent invocation printed a line that is not the complete line of any invocation (torn or mixed cache entry)",
                                        "line_len": len(so), "line_head": repr(so[:60]), "line_tail": repr(so[-60:]),
                                        "complete_lens": sorted(len(c) for c in complete)[:4], "round": rnd, "nproc": nproc,
-                                       "signature_text": "atomic: torn line served (concurrent run)"})
+                                       "check": "concurrency", "signature_text": "atomic: torn line served (concurrent run)"})
         # afterwards: the entry itself, and one more reader
         entry = os.path.join(cache_dir(d), sid + ".cache")
         if os.path.exists(entry):
@@ -1187,8 +1188,8 @@ def concurrency(scratch, out, rng, rounds, nproc, size):
                 content = f.read()
             if content + b"\n" not in complete:
                 out.violations.append({"kind": "atomic", "what": "after the run the cache entry holds a partial or mixed line", "len": len(content),
-                                       "head": repr(content[:60]), "tail": repr(content[-60:]), "signature_text": "atomic: torn entry on disk"})
-        left = [n for n in os.listdir(cache_dir(d)) if ".tmp." in n and not n.startswith("mcp.cache")]
+                                       "head": repr(content[:60]), "tail": repr(content[-60:]), "check": "concurrency", "signature_text": "atomic: torn entry on disk"})
+        left = [n for n in os.listdir(cache_dir(d)) if ".tmp." in n and not n.startswith(MCP_NAME[0])]
         out.count("concurrency", "killed" if killed else "none-killed")
         out.extra.setdefault("concurrency", {"rounds": 0, "killed": 0, "survived": 0, "tmp_left": 0})
         c = out.extra["concurrency"]
@@ -1237,22 +1238,65 @@ def kill_points(scratch, out, sizes):
                     if on_disk not in allowed:
                         out.violations.append({"kind": "atomic", "what": f"after a SIGKILL at '{point}' of the cache write the entry holds a partial or mixed line",
                                                "kill_point": point, "had_entry": had_entry, "len_on_disk": len(on_disk), "len_old": len(old or b""), "len_new": len(new),
-                                               "signature_text": "atomic: torn entry after kill at " + point})
+                                               "check": "kill_points", "size": size, "signature_text": "atomic: torn entry after kill at " + point})
                     now = time.time()
                     os.utime(entry, (now, now))
                 r = subprocess.run([PY, script()], input=mk("READER"), env=env, capture_output=True, cwd=os.path.join(d, "work"))
                 if on_disk is not None and r.stdout not in allowed:
                     out.violations.append({"kind": "atomic", "what": f"the invocation after a SIGKILL at '{point}' was served a line that no invocation produced",
                                            "kill_point": point, "served_len": len(r.stdout), "served_head": repr(r.stdout[:60]),
-                                           "signature_text": "atomic: torn line served after kill at " + point})
+                                           "check": "kill_points", "size": size, "signature_text": "atomic: torn line served after kill at " + point})
                 if r.returncode != 0 or not r.stdout or b"Traceback" in r.stderr:
                     out.violations.append({"kind": "total", "what": "the invocation after a killed one failed", "rc": r.returncode,
-                                           "signature_text": "total: after kill at " + point})
-                stray = [n for n in os.listdir(cache_dir(d)) if not n.startswith(("kp.cache", "mcp.cache"))]
+                                           "check": "kill_points", "size": size, "signature_text": "total: after kill at " + point})
+                stray = [n for n in os.listdir(cache_dir(d)) if not n.startswith(("kp.cache", MCP_NAME[0]))]
                 if stray:
                     out.violations.append({"kind": "confine", "what": "unexpected files in the cache directory after a kill", "files": stray,
-                                           "signature_text": "confine: stray after kill " + point})
+                                           "check": "kill_points", "size": size, "signature_text": "confine: stray after kill " + point})
                 shutil.rmtree(d, ignore_errors=True)
+
+
+def overlap(scratch, out, size):
+    """Two writers of one session overlapping deterministically: A pauses in the middle of its write, B writes and renames
+    meanwhile.  The entry and every line served must be A's or B's complete line."""
+    wrap = os.path.join(os.path.dirname(os.path.abspath(__file__)), "c20_killwrap.py")
+    d = scratch.case_dir()
+    sc = base_sc({}, log="present")
+    setup_case(sc, scratch, d)
+    env = env_of(sc, scratch, d)
+    sid = "ov"
+    entry = os.path.join(cache_dir(d), sid + ".cache")
+    mk = lambda name: json.dumps({"session_id": sid, "model": {"display_name": name}}).encode()
+    lines = []
+    for name in ("A" * size, "B" * size):
+        d2 = scratch.case_dir()
+        setup_case(sc, scratch, d2)
+        lines.append(subprocess.run([PY, script()], input=mk(name), env=env_of(sc, scratch, d2), capture_output=True, cwd=os.path.join(d2, "work")).stdout)
+        shutil.rmtree(d2, ignore_errors=True)
+    inf = os.path.join(d, "tmp", "inA.json")
+    write_bytes(inf, mk("A" * size))
+    pa = subprocess.Popen([PY, wrap, script(), "pause_mid_write"], stdin=open(inf, "rb"), stdout=subprocess.PIPE, stderr=subprocess.PIPE, env=env,
+                          cwd=os.path.join(d, "work"))
+    time.sleep(0.35)
+    pb = subprocess.run([PY, script()], input=mk("B" * size), env=env, capture_output=True, cwd=os.path.join(d, "work"))
+    mid = None
+    if os.path.exists(entry):
+        with open(entry, "rb") as f:
+            mid = f.read() + b"\n"
+    soa, sea = pa.communicate()
+    served = subprocess.run([PY, script()], input=mk("READER"), env=env, capture_output=True, cwd=os.path.join(d, "work")).stdout
+    final = None
+    if os.path.exists(entry):
+        with open(entry, "rb") as f:
+            final = f.read() + b"\n"
+    out.case(["overlap", size], nontrivial=True)
+    out.count("overlap", "B-built" if pb.stdout == lines[1] else "B-other")
+    for what, val in (("entry while A was paused", mid), ("entry at the end", final), ("line served at the end", served), ("B's output", pb.stdout), ("A's output", soa)):
+        if val is not None and val not in lines:
+            out.violations.append({"kind": "atomic", "what": "two overlapping writers of one session: " + what + " is neither writer's complete line",
+                                   "check": "overlap", "len": len(val), "head": repr(val[:40]), "tail": repr(val[-40:]), "len_A": len(lines[0]), "len_B": len(lines[1]),
+                                   "signature_text": "atomic: mixed line with overlapping writers (" + what + ")"})
+    shutil.rmtree(d, ignore_errors=True)
 
 
 # ------------------------------------------------------------------------------------------ strace: the protocol
@@ -1359,7 +1403,7 @@ def strace_trace(scratch, model, out, nproc, size):
         collapsed = [x for i, x in enumerate(seq) if not (x == "write" and i > 0 and seq[i - 1] == "write")]
         if collapsed != ["open-tmp", "write", "close", "rename"]:
             out.violations.append({"kind": "atomic", "what": "the system-call sequence of the cache write is not open(tmp.<pid>, O_WRONLY|O_CREAT|O_TRUNC); write+; close; rename(tmp, entry)",
-                                   "sequence": seq, "signature_text": "atomic-protocol: " + ",".join(collapsed)})
+                                   "check": "strace", "sequence": seq, "signature_text": "atomic-protocol: " + ",".join(collapsed)})
     if res == []:
         out.disagreements.append({"correspondence": "Statusline.step (transition system) <-> strace of concurrent runs",
                                   "detail": "the observed system-call sequence is not a run of the model", "events": out.extra["strace_sample"]})
@@ -1374,8 +1418,23 @@ def strace_trace(scratch, model, out, nproc, size):
         served = results[-1]
         if not any(served == w for w in results[:-1]):
             out.violations.append({"kind": "atomic", "what": "the reader that ran after the traced writers was not served one of their complete lines",
-                                   "served": repr(served[:80]), "signature_text": "atomic: reader after traced writers"})
+                                   "check": "strace", "served": repr(served[:80]), "signature_text": "atomic: reader after traced writers"})
     return len(evs)
+
+
+def repo_constants(scratch):
+    """Where the repository really keeps its caches (asked of the module itself, in a child with the scratch environment)."""
+    d = scratch.case_dir()
+    env = {"HOME": os.path.join(d, "home"), "XDG_CACHE_HOME": os.path.join(d, "xdg"), "PATH": scratch.bin, "PYTHONDONTWRITEBYTECODE": "1",
+           "PYTHONPATH": os.path.join(lib.REPO, "src"), "LC_ALL": "C.UTF-8"}
+    p = subprocess.run([PY, "-c", "from dippy import dippy_statusline as m; import json; print(json.dumps([m.CACHE_DIR, m.MCP_CACHE_PATH, m.LOG_PATH]))"],
+                       env=env, capture_output=True, text=True, timeout=60)
+    cdir, mcp, logp = json.loads(p.stdout)
+    assert cdir == cache_dir(d), (cdir, cache_dir(d))
+    assert os.path.dirname(mcp) == cdir
+    MCP_NAME[0] = os.path.basename(mcp)
+    shutil.rmtree(d, ignore_errors=True)
+    return {"cache_dir": cdir.replace(d, "<case>"), "mcp_cache": MCP_NAME[0], "log": logp.replace(d, "<case>")}
 
 
 # ------------------------------------------------------------------------------------------ entry point
@@ -1383,6 +1442,7 @@ def run(tier, seed, replay=None):
     rng = random.Random(seed)
     out = core.Outcome("C20")
     scratch = Scratch()
+    out.extra["repo_constants"] = repo_constants(scratch)
     model = lib.Model()
     xcheck = []
     try:
@@ -1391,6 +1451,18 @@ def run(tier, seed, replay=None):
             judge("replay", replay["scenario"], d, exp, obs, model, out, xcheck)
         elif replay is not None and "history" in replay:
             run_history(scratch, model, out, replay["history"], "replay")
+        elif replay is not None and replay.get("check") == "kill_points":
+            kill_points(scratch, out, [replay.get("size", 300000)])
+        elif replay is not None and replay.get("check") == "overlap":
+            overlap(scratch, out, 20000)
+        elif replay is not None and replay.get("check") == "concurrency":
+            concurrency(scratch, out, rng, rounds=5, nproc=replay.get("nproc", 6), size=400000)
+        elif replay is not None and replay.get("check") == "strace":
+            strace_trace(scratch, model, out, nproc=3, size=50000)
+        elif replay is not None and replay.get("check") == "alias":
+            alias_mcp(scratch, model, out)
+        elif replay is not None and replay.get("check") == "paths":
+            check_paths(model, scratch, out, rng, 300)
         else:
             cases = systematic(rng)
             n_rand, n_mal = (220, 60) if tier == "quick" else (6000, 1500)
@@ -1412,6 +1484,8 @@ def run(tier, seed, replay=None):
             histories(scratch, model, out, rng, 6 if tier == "quick" else 150)
             alias_mcp(scratch, model, out)
             kill_points(scratch, out, [50, 300000] if tier == "quick" else [0, 50, 9000, 300000, 3000000])
+            for size in ([20000] if tier == "quick" else [10, 20000, 500000]):
+                overlap(scratch, out, size)
             if tier == "quick":
                 concurrency(scratch, out, rng, rounds=3, nproc=6, size=400000)
                 strace_trace(scratch, model, out, nproc=3, size=50000)
